@@ -3210,12 +3210,22 @@ class QuicConnection:
                 packet_type = QuicPacketType.HANDSHAKE
             builder.start_packet(packet_type, crypto)
 
+            # A datagram carrying an INITIAL packet from a client, or an
+            # ack-eliciting INITIAL packet from a server, must be padded to at
+            # least 1200 bytes (RFC 9000 section 14.1). If the anti-amplification
+            # or congestion limits leave less room than that, a client cannot send
+            # an INITIAL packet now and a server can only acknowledge.
+            can_pad = (
+                epoch != tls.Epoch.INITIAL
+                or builder.flight_capacity >= SMALLEST_MAX_DATAGRAM_SIZE
+            )
+
             # ACK
-            if space.ack_at is not None:
+            if space.ack_at is not None and (can_pad or not self._is_client):
                 self._write_ack_frame(builder=builder, space=space, now=now)
 
             # CRYPTO
-            if not crypto_stream.sender.buffer_is_empty:
+            if can_pad and not crypto_stream.sender.buffer_is_empty:
                 if self._write_crypto_frame(
                     builder=builder, space=space, stream=crypto_stream
                 ):
@@ -3223,7 +3233,8 @@ class QuicConnection:
 
             # PING (probe)
             if (
-                self._probe_pending
+                can_pad
+                and self._probe_pending
                 and not self._handshake_complete
                 and (
                     epoch == tls.Epoch.HANDSHAKE
